@@ -16,7 +16,11 @@ for d in sorted(glob.glob('/tmp/mut/C*.out/[AB]') + glob.glob('/tmp/mut/R[23]C*.
         continue
     if not os.path.exists(f'{d}/patch.diff'):
         continue
-    v = subprocess.run(['/verif/scripts/verify_seed.py', pid, var], capture_output=True, text=True).stdout.splitlines()
+    cached = f'/tmp/mut/{pid}.{var}.verify'
+    if os.environ.get('REUSE_VERIFY') and os.path.exists(cached):  # the verify_seed.py output of the trial driver (same scratch procedure)
+        v = open(cached).read().splitlines()
+    else:
+        v = subprocess.run(['/verif/scripts/verify_seed.py', pid, var], capture_output=True, text=True).stdout.splitlines()
     try:
         ver = json.loads(v[0])
     except Exception:
